@@ -37,4 +37,9 @@ pub assume_specification<T: ?Sized + 'static>[ std::any::TypeId::of::<T> ]() -> 
 pub broadcast axiom fn axiom_typeid_key_model()
     ensures #[trigger] obeys_key_model::<std::any::TypeId>();
 
+
+// HashSet::from([a, b, ..]): the set of the array's elements
+pub assume_specification<T: core::cmp::Eq + core::hash::Hash, const N: usize>[ <std::collections::HashSet<T> as core::convert::From<[T; N]>>::from ](arr: [T; N]) -> (r: std::collections::HashSet<T>)
+    ensures r@ == arr@.to_set();
+
 } // verus!
